@@ -284,7 +284,9 @@ func Scan(w *load.World, c *core.Collector) {
 		}
 		visit(f, role, inclusive, "", 0)
 		sort.Strings(rows)
-		need := map[string][]string{"RangeScan": {"end"}, "PrefixScan": {"prefix"}}[f.Name()]
+		// the start bound is compared as well: a cursor positioned by Seek stands on the first key >= start,
+		// which is the start itself only if it is stored — an exclusive scan may skip it only when it is equal
+		need := map[string][]string{"RangeScan": {"end", "start"}, "PrefixScan": {"prefix"}}[f.Name()]
 		for _, nd := range need {
 			found := false
 			for _, r := range rows {
